@@ -61,7 +61,7 @@ def refactor_rows():
         if 'FALSE ALARM' in note:
             alarms += 1
         t = re.sub(r'^R\d\s*[-:–]\s*', '', title_of(d))
-        rows.append(f"| {m['property']}-{m['refactoring']} | {', '.join(files_of(d))[:160]} | {t[:140]} | {'; '.join(res)} | {note} |")
+        rows.append(f"| {m['property']}-{m['refactoring']} | {', '.join(files_of(d))[:160]} | {t[:140]} | {'; '.join(dict.fromkeys(res))} | {note} |")
     return rows, n, alarms
 
 def refactor_props():
@@ -168,13 +168,21 @@ rewrite, lines cut into three pieces on the wire, the socket stream up to the en
 """ + "\n".join(r4) + "\n")
     out.append(f"""### 11.{5 if r4 else (4 if r3 else 3)} Behaviour-preserving refactorings - the checks must stay silent
 
-The opposite experiment: {nr} refactorings (two per property for {refactor_props()} properties; half of them were
-explicitly asked to be *correct* optimisations that carry state across operations - memos with
-complete keys, latches, lazily decoded settings - the kind of change the E2x units are most
-likely to trip over).  Each keeps the suite green and, by its author's argument, the property.
+The opposite experiment: {nr} refactorings for {refactor_props()} properties.  R1 / R2: two per property; half of
+them were explicitly asked to be *correct* optimisations that carry state across operations - memos
+with complete keys, latches, lazily decoded settings - the kind of change the E2x units are most
+likely to trip over.  R3 / R4 (after round 4): *correct* versions of exactly the kinds of change the
+round-4 sub-agents had got subtly wrong - an instruction read-ahead with complete invalidation, an
+aligned-read fast path that knows where the second register block ends, coalesced ELF copies checked
+pairwise, a send worker that flushes on every exit path, a block-wise line splitter that appends its
+tail, a timer loop on locals that compares after the wrap, a generation-counter cache of bus timings
+that cannot come round, merged call / exception-entry routines that keep the order of fetch and push,
+merged field parsers that do not widen what is accepted.  Each keeps the suite green and, by its
+author's argument (most of them backed by a differential test against the old code), the property.
 Result: the registered checks were silent on {nr - alarms} of {nr}; **{alarms} raised an alarm that turned out
 to be a false alarm of the machinery** (C10-R2: order among simultaneously pending requests;
-§7.4), which was corrected.  Where a refactoring deliberately picked a different behaviour that
+C01-R3 and C09-R3: a correct read-ahead made stale by the harness's own set-up writes; §7.4), all
+corrected.  Where a refactoring deliberately picked a different behaviour that
 the statement allows (C01-R2: `MOV Rs,@-ERn` with Rs inside ERn; C10-R2: lowest vector first;
 C17-R2: no overflow of the elapsed-state accumulator), the checks accept it.
 
